@@ -150,9 +150,12 @@ func (e *Engine) encodeFunction(name string) (fe *FuncEnc, err error) {
 				continue
 			}
 			t := fe.evalClause(f, en, xst, f.entry, nil, res, fn.Pos())
+			n0 := len(fe.obls)
 			fe.emit("post", en.Label, reach, t, en.Text, fn.Pos())
 			if len(en.Props) > 0 {
-				fe.obls[len(fe.obls)-1].Props = en.Props
+				for _, o := range fe.obls[n0:] {
+					o.Props = en.Props
+				}
 			}
 		}
 	}
@@ -753,20 +756,21 @@ func (fe *FuncEnc) caseClause(f *Frame, en *Clause) {
 	if len(in) == 0 {
 		engErr("%s: case %s has no return", en.Line, T)
 	}
-	reach, xst := fe.merge(in, "case_"+sanitize(en.Label))
-	var res []Term
-	for i := 0; i < fn.Signature.Results().Len(); i++ {
-		var ts []Term
-		for _, r := range inRets {
-			ts = append(ts, r.res[i])
-		}
-		res = append(res, fe.define("result", iteChain(in, ts)))
-	}
+	// one obligation per return of the case: small, path-specific queries
 	f.curBlock = nil
-	t := fe.evalClause(f, en, xst, f.entry, nil, res, fn.Pos())
-	fe.emit("post", en.Label, reach, t, en.Text, fn.Pos())
-	if len(en.Props) > 0 {
-		fe.obls[len(fe.obls)-1].Props = en.Props
+	for i, r := range inRets {
+		t := fe.evalClause(f, en, r.st, f.entry, nil, r.res, fn.Pos())
+		label := en.Label
+		if len(inRets) > 1 {
+			label = fmt.Sprintf("%s@%d", en.Label, i+1)
+		}
+		n0 := len(fe.obls)
+		fe.emit("post", label, r.reach, t, en.Text, fn.Pos())
+		if len(en.Props) > 0 {
+			for _, o := range fe.obls[n0:] {
+				o.Props = en.Props
+			}
+		}
 	}
 	// every other return is outside the case
 	var conds []Term
